@@ -5,7 +5,7 @@ from . import common as C
 from . import programs as P
 from . import pyside
 from . import values as V
-from .decprops import CFGS, TB_COMMON, dec_class, enc_project, enc_tie, hexs, own_corpus, run_both
+from .decprops import CFGS, TB_COMMON, dec_class, enc_project, enc_tie, float_text_instances, hexs, own_corpus, run_both
 from .dictprops import ORACLE
 from .encprops import is_valid_utf8
 
@@ -343,18 +343,20 @@ def pickler_tie(ctx, objs, shared=False):
         if variant == "C-framed":
             continue
         for pd in (False, True):
-            covered = flags[int(pd)] == "1" and (p >= 1 or not _has_float(o))
+            # every hypothesis of C02_pickler_dec / C02_pickler_shared_dec, evaluated by the driver: keys (per mode) and, at protocol 0,
+            # the float-text round trip of each float of the object
+            covered = flags[int(pd)] == "1" and flags[-1] == "1"
             cfg = ("1" if pd else "0") + ctx.rng.choice("01")
             dec_lines.append(f"dec {cfg} - {hexs(real)}")
-            dec_meta.append((o, p, pd, covered, real))
+            dec_meta.append((o, p, pd, covered, real, flags[-1]))
     go, lean = run_both(dec_lines)
-    for line, (o, p, pd, covered, real), g, l in zip(dec_lines, dec_meta, go, lean):
+    for line, (o, p, pd, covered, real, fflag), g, l in zip(dec_lines, dec_meta, go, lean):
         ctx.evaluations += 1
         ctx.tie(line[:4000], g, l)
         ctx.nontrivial((line[4:6], real))
         thm = "pickler-theorem(memo read)" if shared else "pickler-theorem"
         if not covered:
-            ctx.count(thm + ":outside-hypotheses(" + ("protocol-0 float text" if p == 0 and _has_float(o) else
+            ctx.count(thm + ":outside-hypotheses(" + ("protocol-0 float text: a NaN, whose text carries no payload" if p == 0 and _has_float(o) and fflag == "0" else
                                                                 "tuple / big-int key in map mode" if not pd else "keys") + ")")
             continue
         ctx.count(thm + ":covered")
@@ -386,8 +388,9 @@ def _has_float(o):
 
 class C02:
     prop = "C02"
-    lean_module = "Ogorek.Props.C02Pk"
-    theorems = ["Ogorek.C02_pickler", "Ogorek.C02_pickler_framed", "Ogorek.C02_pickler_bin", "Ogorek.C02_pickler_shared",
+    lean_module = "Ogorek.Props.C06Dec"
+    theorems = ["Ogorek.C02_pickler", "Ogorek.C02_pickler_framed", "Ogorek.C02_pickler_bin", "Ogorek.C02_pickler_dec", "Ogorek.C02_pickler_shared_dec",
+                "Ogorek.pkOK_of_bf", "Ogorek.pyFloatTextOK_of_b", "Ogorek.C02_pickler_shared",
                 "Ogorek.C02_pickler_shared_unframed", "Ogorek.pk_val", "Ogorek.sk_val", "Ogorek.MemoInv.put", "Ogorek.runs_get",
                 "Ogorek.saveBytesS_ok", "Ogorek.saveBytearrayS_ok", "Ogorek.runs_listGroups",
                 "Ogorek.runs_dictGroups", "Ogorek.batchList_groups", "Ogorek.batchDict_groups", "Ogorek.assignAll_batch",
@@ -413,8 +416,10 @@ class C02:
                   "reading inverts CPython's protocol-0 writing of text with its extra escapes (cpRue_inv, cpRue_no_lf), and the "
                   "least LONG1 width holds the number (long1Width_fits). Hypotheses: the keys of each dict acceptable to the decoder's "
                   "table and pairwise different for it (keysOK as in C03: with builtin maps no tuple / *big.Int key), bytearrays < 4 "
-                  "GiB; at protocol 0 only, ParseFloat reads Python's repr of each float back (PyFloatTextOK, not proved); from "
-                  "protocol 1 on the hypotheses are decidable (pkOKb, C02_pickler_bin) and evaluated for every compared case. "
+                  "GiB; at protocol 0 only, ParseFloat reads Python's repr of each float back (PyFloatTextOK: not proved for all floats). "
+                  "Every one of these hypotheses is decidable and is evaluated for every compared case, at every protocol: pkOKb for the "
+                  "keys, pyFloatsOKb for the protocol-0 float text (it runs the model's formatter and parser on each float; "
+                  "C02_pickler_dec, C02_pickler_shared_dec via pkOK_of_bf) - the compared cases are instances of the theorem. "
                   "C02_pickler_shared (sk_val): the same for objects in which str, bytes and bytearray objects occur any number of "
                   "times - the pickler writes them once and fetches them with BINGET / LONG_BINGET / GET - and with bytes at "
                   "protocols 0-2 and bytearray at protocols 0-4, written as _codecs.encode(text, 'latin1') / bytes() / "
@@ -627,8 +632,9 @@ def sharing_programs():
 
 class C06:
     prop = "C06"
-    lean_module = "Ogorek.Props.C06Pk"
-    theorems = ["Ogorek.C06_pickler_agree", "Ogorek.C06_pickler_agree_bin", "Ogorek.pyOKp_of_b", "Ogorek.C06_pickler_pvm", "Ogorek.C02_pickler_shared", "Ogorek.psk_val", "Ogorek.sk_val",
+    lean_module = "Ogorek.Props.C06Dec"
+    theorems = ["Ogorek.C06_pickler_agree", "Ogorek.C06_pickler_agree_bin", "Ogorek.C06_pickler_agree_dec", "Ogorek.pyOKp_of_bf", "Ogorek.pkOK_of_bf",
+                "Ogorek.pyFloatTextOK_of_b", "Ogorek.pyOKp_of_b", "Ogorek.C06_pickler_pvm", "Ogorek.C02_pickler_shared", "Ogorek.psk_val", "Ogorek.sk_val",
                 "Ogorek.pruns_listGroups", "Ogorek.pruns_dictGroups", "Ogorek.PMemoInv.put", "Ogorek.pruns_get", "Ogorek.pyAssignAll_repG",
                 "Ogorek.C01_C03_agree", "Ogorek.C02_memo_keys", "Ogorek.C06_dup_same", "Ogorek.C06_get_same", "Ogorek.C06_dict_shared",
                 "Ogorek.C06_K1_witness", "Ogorek.C06_ref_appends_shared"]
@@ -653,8 +659,10 @@ class C06:
                   "exempt from locality because a fetched one may be older than its container, and the memo invariant PMemoInv with "
                   "PMemoInv.put / pruns_get. Hypotheses: what each side demands of dict keys (og-rek: acceptable to the table and "
                   "pairwise different for it; CPython: hashable, at most one NaN-holding key), valid UTF-8 text, at protocol 0 the "
-                  "float-text hypothesis; for protocols 1-5 all of these are decided by evaluation (C06_pickler_agree_bin with pkOKb / pyOKb, which the "
-                  "check computes for every real pickle it takes as a program). PARTIAL: no simulation theorem between the two machines on "
+                  "float-text hypothesis (ParseFloat reads Python's repr back: not proved in general). ALL of these are decided by evaluation "
+                  "(C06_pickler_agree_dec: pkOKb, pyOKb and - at protocol 0 - pyFloatsOKb, which runs the model's formatter and parser on "
+                  "each float of the object), and the check computes them for every real pickle it takes as a program, so those cases are "
+                  "instances of the theorem at every protocol 0-5. PARTIAL: no simulation theorem between the two machines on "
                   "arbitrary programs (K1 and K6 make them differ where lists / NaN objects are shared); there the statement is decided "
                   "per run against the real CPython unpickler on generated and exhaustively enumerated programs (K1 runs being exactly "
                   "those on which the value- and reference-list machines of the model differ), and the Lean model of CPython's "
@@ -722,8 +730,10 @@ class C06:
         for (o, pr, d), a in zip(pk_objs, pka):
             if a.startswith("OK ") and bytes.fromhex(a[3:].split(" ")[0]) == d:
                 fl = a[3:].split(" ")[1]
-                ctx.count("pickler-agree-theorem:" + ("instance(PyDict mode)" if fl[1] == "1" and fl[2:3] == "1" and (pr >= 1 or not _has_float(o))
+                ctx.count("pickler-agree-theorem:" + ("instance(PyDict mode)" if fl[1] == "1" and fl[2] == "1" and fl[3] == "1"
                                                       else "outside-hypotheses"))
+                if pr == 0 and _has_float(o):
+                    ctx.count("pickler-agree-theorem:protocol-0 floats:" + ("text hypothesis holds" if fl[3] == "1" else "text hypothesis does not hold (NaN: the text carries no payload)"))
             else:
                 ctx.count("pickler-agree-theorem:bytes-not-the-model's(" + ("multi-frame" if pr >= 4 and len(d) > 60000 else
                                                                               "interned one-character str" if interned_char_clash(o, pr) else
@@ -1009,8 +1019,8 @@ def persid_not_ascii(v, p):
 
 class C01:
     prop = "C01"
-    lean_module = "Ogorek.Props.C03R"
-    theorems = ["Ogorek.C01_pvm_table", "Ogorek.C01_pvm_table_bin", "Ogorek.C01_pvm_table_reflect", "Ogorek.C01_pvm_table_hook", "Ogorek.C01_C03_agree", "Ogorek.pt_val", "Ogorek.pyAssignAll_rep", "Ogorek.pyUtf8Valid_of_valid",
+    lean_module = "Ogorek.Props.C03Dec"
+    theorems = ["Ogorek.C01_pvm_table", "Ogorek.C01_pvm_table_dec", "Ogorek.FloatsOK_of_b", "Ogorek.C01_pvm_table_bin", "Ogorek.C01_pvm_table_reflect", "Ogorek.C01_pvm_table_hook", "Ogorek.C01_C03_agree", "Ogorek.pt_val", "Ogorek.pyAssignAll_rep", "Ogorek.pyUtf8Valid_of_valid",
                 "Ogorek.C01_K3_pvm", "Ogorek.C01_K5_pvm", "Ogorek.C01_int_forms", "Ogorek.C01_bytes_latin1", "Ogorek.C03_int",
                 "Ogorek.C12_reject", "Ogorek.C01_K3_witness"]
     trusted_base = TB_PY + ["Ogorek/Pvm.lean as a model of CPython's pickle._Unpickler with classes and persistent ids kept symbolic: hand-written "
@@ -1029,7 +1039,8 @@ class C01:
                   "machine's assignment sequence builds the table's dict (pyAssignAll_rep). Hypotheses = what CPython demands and og-rek does "
                   "not check: unicode text is valid UTF-8 (finding K3; C01_K3_pvm shows the machine raises without it), a protocol-0 "
                   "persistent id is ASCII (finding K5; C01_K5_pvm), dict keys hashable in Python with at most one NaN-holding key, a Call "
-                  "does not name _codecs.encode / bytes / bytearray, payloads < 2^31/2^32 bytes, and at protocol 0 FloatTextOK (as C03). "
+                  "does not name _codecs.encode / bytes / bytearray, payloads < 2^31/2^32 bytes, and at protocol 0 FloatTextOK (as C03; decidable per float - C01_pvm_table_dec with floatsOKb - "
+                  "and evaluated for every float of this run's protocol-0 cases). "
                   "Tie: the implementation's bytes must be the encoder model's; the real CPython loads them and must return the "
                   "documented value; and the Lean machine must agree with the real CPython on those same bytes.")
     level_note = ("trusted: Lean kernel + standard axioms; encoder model; the Lean model of CPython's unpickler (validated against CPython each "
@@ -1096,6 +1107,7 @@ class C01:
                 lines.append(f"enc {p} {su} - {V.render_raw(vr)}")
                 meta.append((p, su, V.strip_raw(vr)))
         go, lean = run_both(lines)
+        float_text_instances(ctx, [(m[0], ln) for m, ln in zip(meta, lines)])
         load_lines, load_meta = [], []
         for line, (p, su, v), g, l in zip(lines, meta, go, lean):
             ctx.evaluations += 1
